@@ -85,7 +85,7 @@ def build():
     u.include("shims/stdshim.rs")
     u.raw("use stdshim::fs;\n")
     u_generate.config_types(u)
-    u.real_item(CTX, r"pub struct Cache\b", lambda t: common.wrap(common.pub_fields(common.strip_doc(re.sub(r"#\[derive\([^\]]*\)\]", "", t)))))
+    u.real_item(CTX, r"pub struct Cache\b", common.de_serde)
     u.include("shims/driver_stubs_core.rs")
     u.include("shims/walk.rs")
     from . import u_finder
@@ -100,6 +100,7 @@ def build():
     u.raw(u_context.DEFAULTS_SPEC)
     u_context.serde_axioms(u)
     u.raw(u_context.lock_value_spec())
+    u_context.cache_axioms(u)
     u.raw(EFFECTIVE)
 
     def progargs(t):
@@ -131,8 +132,8 @@ def build():
     f = u.real_fn(MAIN, "setup_context", props=("C04", "C15", "C16", "C17"))
     rules.sig(f, ret="r", world=True)
     rules.r1_logs(f)
-    rules.r13_reroot(f, {"std::path::": "stdshim::path::"})
-    rules.r8_thread(f, [r"fs::read_to_string\(", r"config::Context::new\("])
+    rules.r13_reroot(f, {"std::path::": "stdshim::path::", "std::env::": "stdshim::env::", "std::fs::": "stdshim::fs::"})
+    rules.r8_thread(f, [r"fs::(?:read_to_string|write|remove_file|copy|rename)\(", r"config::Context::new\("])
     f.replace_all(r"String::from\s*\(", "string_from(", "R9", regex=True)
     f.requires += ["config_filename@ == config_arg()"]
     f.ensures += [
